@@ -313,8 +313,9 @@ func c16CroltWall(c map[string]interface{}) interface{} {
 	for _, jo := range jobs {
 		m := jo.(map[string]interface{})
 		j := e.job(m["acc"].(string), m["id"].(string), m["expr"].(string))
+		tBefore := time.Now().UnixNano()
 		err := e.cron.Add(j)
-		adds = append(adds, map[string]interface{}{"aid": j.aid, "err": errStr(err), "tid": j.TId, "at": c16ts(j.TId), "t": time.Now().UnixNano(), "once": j.Once})
+		adds = append(adds, map[string]interface{}{"aid": j.aid, "err": errStr(err), "tid": j.TId, "at": c16ts(j.TId), "t_before": tBefore, "t": time.Now().UnixNano(), "once": j.Once})
 	}
 	dels, _ := c["deletes"].([]interface{})
 	delOut := []interface{}{}
